@@ -490,6 +490,11 @@ def run(ctx, tier):
     results += c02.cow_free_set(ctx, rule='C10.cow.free-set')
     from core import renamed
     results += renamed(c02.cow_write_set(ctx), 'C02', 'C10')
+    import c11, c04
+    results += c11.shared_state(ctx, rule='C10.shared-state')
+    results += c04.atomic_begin(ctx, rule='C10.atomic-begin')
+    import c14
+    results += renamed(c14.sig_rule(ctx), 'C14', 'C10')
     import profile
     results += profile.debug_pure(ctx, 'C10.debug-pure')
     return dict(
